@@ -147,6 +147,17 @@ func checkPure(c pureCase) string {
 			if m := unchanged(i, "evaluation"); m != "" {
 				return m
 			}
+			// the pooled tree (evaluated before, possibly with other data) must behave like a freshly parsed one
+			if fp := obs.Parse([]byte(texts[i])); fp.OK() {
+				fr := formula.NewRunner()
+				if d := c08Data(a.J); d != nil {
+					fr.SetThis(d)
+				}
+				fv, fe := outcomeKey(obs.Eval(fr, context.Background(), fp.Src.Expression))
+				if fv != v || fe != e {
+					return fmt.Sprintf("step %d: the tree of %q, evaluated earlier with other data, gives %s / err %q with data variant %d; a freshly parsed tree of the same text gives %s / err %q", step+1, texts[i], v, e, a.J%3, fv, fe)
+				}
+			}
 		case "analyse":
 			var fields []string
 			var err error
@@ -263,7 +274,7 @@ func pureNontrivial(texts []string, actions []pureAction) bool {
 
 // TestC08History: evaluations repeated and interleaved with unrelated work.
 func TestC08History(t *testing.T) {
-	run := h.Begin("C08", "history", "rapid: a pool of 1-4 generated programs (the C03 grammar without now/toDay, over the world of all data kinds) and 1-3 unrelated programs; a history of 4-24 actions {parse text i again, evaluate tree i with data variant j (full world / small map / no map) in a fresh runner with freshly built equal data, analyse tree i, parse-and-format a malformed text, evaluate and analyse an unrelated formula}; oracle: re-parsing gives an identical full dump (shape, values, Pos/End, ids, parent links, counters), every evaluation of (tree i, data j) equals the first one (value by deep address-free comparison, error by message), field analysis returns the same set, and the full dump of every tree is unchanged after every evaluation / analysis and at the end; non-trivial: a program with a call or assignment evaluated at least twice with other actions in between; distinct by case")
+	run := h.Begin("C08", "history", "rapid: a pool of 1-4 generated programs (the C03 grammar without now/toDay, over the world of all data kinds) and 1-3 unrelated programs; a history of 4-24 actions {parse text i again, evaluate tree i with data variant j (full world / small map / no map) in a fresh runner with freshly built equal data, analyse tree i, parse-and-format a malformed text, evaluate and analyse an unrelated formula}; oracle: re-parsing gives an identical full dump (shape, values, Pos/End, ids, parent links, counters), every evaluation of (tree i, data j) equals the first one and equals the evaluation of a freshly parsed tree of the same text (value by deep address-free comparison, error by message), field analysis returns the same set, and the full dump of every tree is unchanged after every evaluation / analysis and at the end; non-trivial: a program with a call or assignment evaluated at least twice with other actions in between; distinct by case")
 	defer run.End(t)
 	h.RapidSetup(h.N(2500, 150000), "c08hist")
 	rapid.Check(t, func(rt *rapid.T) {
